@@ -1152,7 +1152,16 @@ func c08cExec(op []string) string {
 		}
 	}
 	var err error
-	if via == "file" {
+	if via == "alias" {
+		// the deprecated spellings forward to the same loaders
+		switch format {
+		case "json":
+			loader = LoadConfigFromJsonBytes
+		case "yaml":
+			loader = LoadConfigFromYamlBytes
+		}
+	}
+	if via == "file" || via == "cfgfile" {
 		f, ferr := os.CreateTemp("", "c08conf-*."+format)
 		if ferr != nil {
 			return "bad-op"
@@ -1164,7 +1173,11 @@ func c08cExec(op []string) string {
 			return "bad-op"
 		}
 		f.Close()
-		err = Load(name, target.Interface())
+		if via == "cfgfile" {
+			err = LoadConfig(name, target.Interface())
+		} else {
+			err = Load(name, target.Interface())
+		}
 	} else {
 		err = loader([]byte(text), target.Interface())
 	}
@@ -1213,7 +1226,7 @@ func c08cGen(r *verifh.Rng) []verifh.Section {
 				if format == "toml" && (strings.Contains(in, "null") || !strings.HasPrefix(in, "{")) {
 					format = "yaml"
 				}
-				via := r.PickS("bytes", "bytes", "bytes", "file")
+				via := r.PickS("bytes", "bytes", "bytes", "file", "file", "cfgfile", "alias")
 				ops = append(ops, "c fmt="+format+" via="+via+" key=json T"+tb.String()+" I "+in)
 			}
 		}
